@@ -6,7 +6,9 @@ Import ListNotations.
 Open Scope Z_scope.
 
 (* for EVERY JSON value (any depth, any members) and both input forms the parsers return a record or
-   raise InvalidJSONStructure / the response exception - nothing else (json.loads itself: value or JSONDecodeError) *)
+   raise InvalidJSONStructure / the response exception - nothing else.  json.loads itself: a value or ANY ValueError - a JSONDecodeError, or
+   the integer string conversion limit on a number of more than 4300 digits (defect F10, repaired: until then the premise had to exclude it);
+   loads_ok now excludes only non-ValueError failures such as RecursionError (nesting beyond the interpreter's limit, outside C13's quantifier) *)
 Theorem C13_total_auth : forall O inp, loads_ok O inp ->
   cred_outcome_ok InvalidAuthenticationResponse (parse_auth_cred_json O inp).
 Proof. exact parse_auth_cred_total. Qed.
@@ -65,3 +67,12 @@ Theorem C13_client_data_missing_member : forall O raw m,
   parse_client_data O raw = Err (Lib InvalidJSONStructure).
 Proof. exact parse_client_data_missing_member. Qed.
 Print Assumptions C13_client_data_missing_member.
+(* bytes that json.loads refuses - no JSON text, no UTF-8, a number too long to convert - are refused with the library's structure exception *)
+Theorem C13_client_data_undecodable : forall O raw,
+  o_json_loads O false raw = JDecodeError \/ o_json_loads O false raw = JUnicodeError ->
+  parse_client_data O raw = Err (Lib InvalidJSONStructure).
+Proof. intros O raw [H|H]; unfold parse_client_data; rewrite H; reflexivity. Qed.
+Print Assumptions C13_client_data_undecodable.
+Theorem C13_loads_premise_nonvacuous : forall O s j, o_json_loads O true s = JOk j -> loads_ok O (inl s).
+Proof. intros O s j H. unfold loads_ok. rewrite H. exact I. Qed.
+Print Assumptions C13_loads_premise_nonvacuous.
